@@ -415,7 +415,7 @@ M('c09-etag-loads-indexes-first-char', 'C09', 'R16', 'falcon/util/structures.py'
   """        if value[:1] == value[-1:] == '"':""", """        if value[0] == '"' and value.endswith('"'):""")
 # variant: the length guard of the cookie un-quoting is dropped (a cookie with an empty value)
 M('c09-cookie-unquote-without-length-guard', 'C09', 'R16', 'falcon/request_helpers.py',
-  """        if len(value) > 2 and value[0] == '"' and value[-1] == '"':""", """        if value[0] == '"' and value[-1] == '"':""")
+  """        if len(value) >= 2 and value[0] == '"' and value[-1] == '"':""", """        if value[0] == '"' and value[-1] == '"':""")
 # variant: unquote_string tests the quotes before the length
 M('c09-unquote-string-quotes-before-length', 'C09', 'R16', 'falcon/util/uri.py',
   """    if len(quoted) < 2:
@@ -482,14 +482,45 @@ M('c09-content-length-large-refused', 'C09', 'R17', 'falcon/request.py',
 # negative controls (exit 0): `0 > value_as_int`; `not value_as_int >= 0`; `value_as_int <= -1`; the raise moved into an else of `if v >= 0: return v`
 
 # R18 the hoisted unquoting guard covers every quoted cookie value (sa-am02096)
-CQ = "        if len(value) > 2 and value[0] == '\"' and value[-1] == '\"':\n"
+CQ = "        if len(value) >= 2 and value[0] == '\"' and value[-1] == '\"':\n"
+# the empty quoted value `""` (length 2) is judged too since the tree reads it as '' (f4f97d9): restoring `> 2` keeps the two quotes
+M('c09-cookie-empty-quoted-value-kept-quoted', 'C09', 'R18', 'falcon/request_helpers.py', CQ,
+  "        if len(value) > 2 and value[0] == '\"' and value[-1] == '\"':\n", also=('C15',))
 M('c09-cookie-one-char-quoted-value-kept-quoted', 'C09', 'R18', 'falcon/request_helpers.py', CQ,
   "        if len(value) > 3 and value[0] == '\"' and value[-1] == '\"':\n", also=('C15',))
 M('c09-cookie-short-quoted-values-kept-quoted', 'C09', 'R18', 'falcon/request_helpers.py', CQ,
   "        if len(value) >= 8 and value[0] == '\"' and value[-1] == '\"':\n", also=('C15',))
 M('c09-cookie-unquote-only-even-lengths', 'C09', 'R18', 'falcon/request_helpers.py', CQ,
-  "        if len(value) > 2 and len(value) != 3 and value[0] == '\"' and value[-1] == '\"':\n", also=('C15',))
+  "        if len(value) >= 2 and len(value) != 3 and value[0] == '\"' and value[-1] == '\"':\n", also=('C15',))
 M('c09-cookie-unquote-needs-unquoted-end', 'C09', 'R18', 'falcon/request_helpers.py', CQ,
-  "        if len(value) > 2 and value[0] == '\"' and value[-1] != '\"':\n", also=('C15',))
-# negative controls (exit 0): `len(value) >= 3`; `2 < len(value)`; startswith/endswith; `value[:1] == '"'`; `len(value) > 1` (covers `""` too);
+  "        if len(value) >= 2 and value[0] == '\"' and value[-1] != '\"':\n", also=('C15',))
+# negative controls (exit 0): `len(value) > 1`; `1 < len(value)`; startswith/endswith; `value[:1] == '"'`;
 # the guard dropped altogether (unconditional _unquote)
+
+# ---- wave 9: R19 URL composition table (s9-c09-3)
+URI_V = "            value = self.scheme + '://' + self.netloc + self.relative_uri\n"
+# the seed: build on the sibling's memoised prefix when it is there (the mount point twice, depends on the read order)
+M('c09-uri-builds-on-cached-prefix', 'C09', 'R19', 'falcon/request.py', URI_V,
+  "            if self._cached_prefix is not None:\n                value = self._cached_prefix + self.relative_uri\n"
+  "            else:\n                value = self.scheme + '://' + self.netloc + self.relative_uri\n")
+# variant: through the accessor (always wrong under a mount point)
+M('c09-uri-prefix-plus-relative-uri', 'C09', 'R19', 'falcon/request.py', URI_V, "            value = self.prefix + self.relative_uri\n")
+# variant: the forwarded twin
+M('c09-forwarded-uri-builds-on-forwarded-prefix', 'C09', 'R19', 'falcon/request.py',
+  "                self.forwarded_scheme + '://' + self.forwarded_host + self.relative_uri\n",
+  "                self.forwarded_prefix + self.relative_uri\n")
+# variant: the sibling's memo slot read where it may still be None
+M('c09-uri-reads-unset-prefix-slot', 'C09', 'R19', 'falcon/request.py', URI_V, "            value = self._cached_prefix + self.path\n")
+# variant: prefix loses the port (host instead of netloc)
+M('c09-prefix-host-instead-of-netloc', 'C09', 'R19', 'falcon/request.py',
+  "self._cached_prefix = self.scheme + '://' + self.netloc + self.root_path", "self._cached_prefix = self.scheme + '://' + self.host + self.root_path")
+# variant: relative_uri keeps the '?' for an empty query string
+M('c09-relative-uri-bare-question-mark', 'C09', 'R19', 'falcon/request.py',
+  "                self._cached_relative_uri = self.root_path + self.path\n",
+  "                self._cached_relative_uri = self.root_path + self.path + '?' + self.query_string\n")
+# variant: relative_uri forgets the mount point when there is a query string
+M('c09-relative-uri-without-root-path', 'C09', 'R19', 'falcon/request.py',
+  "                    self.root_path + self.path + '?' + self.query_string\n", "                    self.path + '?' + self.query_string\n")
+# negative controls (exit 0): f-string / ''.join composition; `self._cached_prefix + self.path + ('?' + qs if qs else '')` behind
+# `is not None`; `self.prefix + self.path` then `+= '?' + qs`; `self.app` for root_path; relative_uri through a local with `+=`;
+# `!= ''` test; '%'-formatting is exit 2 (unreadable), never exit 1
